@@ -11,6 +11,7 @@
 -/
 import AcnModel.Wire
 import AcnModel.Stochastic
+import AcnModel.StochasticLoop
 open Lean Acn Acn.Wire Acn.Stoch
 
 def jSnap (p : Snapshot) : Json :=
@@ -66,6 +67,29 @@ def handleOps (j : Json) : Except String Json := do
       outs := outs.push (Json.mkObj [("err", Json.null), ("snap", jSnap (s.snapshot ids))])
   pure (Json.mkObj [("steps", Json.arr outs), ("arrivals", jList jS s.arrivals)])
 
+/-- the COMPOSED model: sim-core's run loop with CPython's heap (`heapQ`) and the stochastic network
+    (`runGP`, unrolled one `bodyGP` per period so that a snapshot can be taken after each
+    post_charging_update).  Here the model computes the processing order itself. -/
+def runLoop (stations : List String) (early : Bool) (sessions : List EventCore.Session)
+    (full : Nat → Sess → Bool) (cs : Nat → Nat) (limit : Nat) : Json := Id.run do
+  let cfg : EventCore.Cfg := { stations, sessions, recomputes := [], maxRecompute := none }
+  let ids := sessions.map (·.id)
+  let mut g := EventCore.initG EventCore.heapQ cfg (net0 cfg early)
+  let mut outs : Array Json := #[]
+  let mut err : Json := Json.null
+  for _ in [0:limit] do
+    if !(EventCore.guard g.core) then break
+    match bodyGP EventCore.heapQ (stochasticNet cs) (stochasticPost full) cfg (fun _ => none) (fun _ => none) g with
+    | (g', none) =>
+      g := g'
+      outs := outs.push (jSnap (g.net.snapshot ids))
+    | (_, some e) => err := jS e.name; break
+  return Json.mkObj [
+    ("err", err), ("periods", Json.arr outs), ("final", jSnap (g.net.snapshot ids)),
+    ("iterations", jN g.core.iter), ("queue_empty", jB g.core.pending.isEmpty),
+    ("events", jList (fun (e : Event) => Json.arr #[jI e.ts, jS e.kind.name, jS e.sess]) g.core.eventHist),
+    ("ev_history", jList jS g.core.evHist), ("arrivals", jList jS g.net.arrivals)]
+
 def handleRun (j : Json) : Except String Json := do
   let stations ← (← getArr j "stations").mapM (fun v => v.getStr?)
   let early ← getBool j "early"
@@ -95,7 +119,11 @@ def handleRun (j : Json) : Except String Json := do
         | .post _ => "post"
         | .ev _ => "ev"
       outs := outs.push (Json.mkObj [("kind", jS tag), ("snap", jSnap (s.snapshot ids))])
+  let coreSessions := sessions.map (fun x =>
+    ({ id := x.id, station := ((st0s.lookup x.id).join).getD "", arrival := x.arrival,
+       departure := x.departure } : EventCore.Session))
   pure (Json.mkObj [
+    ("loop", runLoop stations early coreSessions full cs (n + 2)),
     ("err", err), ("steps", Json.arr outs), ("final", jSnap (s.snapshot ids)),
     ("arrivals", jList jS s.arrivals),
     ("wf", jB (wellFormedB sessions events)), ("horizon", jN (horizon events))])
